@@ -298,22 +298,24 @@ type exCall struct {
 }
 
 var worldExpr = &world{
-	name: "expr", lexerKind: "text/scanner", junk: " ) )",
+	name: "expr", lexerKind: "text/scanner", junk: "\n) )",
 	build: func(o buildOpts) PH {
-		opts := applyCommon(o, nil, nil)
+		opts := applyCommon(o, commentScanner(), nil)
 		opts = append(opts, participle.Unquote("String"), participle.Upper("Ident"))
-		return mustPH[exFile](nil, opts...)
+		return mustPH[exFile]([]string{"Comment"}, opts...)
 	},
 	stmtBuild: func(o buildOpts) PH {
-		opts := applyCommon(o, nil, nil)
+		opts := applyCommon(o, commentScanner(), nil)
 		opts = append(opts, participle.Unquote("String"), participle.Upper("Ident"))
-		return mustPH[exOneStmt](nil, opts...)
+		return mustPH[exOneStmt]([]string{"Comment"}, opts...)
 	},
 	docs: []doc{
 		{name: "mixed", valid: true, text: "let x = 1 + 2 * (3 - y);\nf(x, g(1, \"two\"), -3.5);\nlet é = \"ünï\" + x;\n",
 			stmts: []string{"let x = 1 + 2 * (3 - y);", "f(x, g(1, \"two\"), -3.5);", "let é = \"ünï\" + x;"}},
 		{name: "calls", valid: true, text: "a();b(c());d(e, f(g(h)));\n", stmts: []string{"a();", "b(c());", "d(e, f(g(h)));"}},
 		{name: "raw-where", valid: true, text: "raw a + ( b 1.5 \"s\";\nlet v = x * 2 where v > 0;\nraw z;", stmts: []string{"raw a + ( b 1.5 \"s\";", "let v = x * 2 where v > 0;", "raw z;"}},
+		{name: "commented", valid: true, text: "/* lead */ raw a /* mid */ b // tail\n;\nlet v = /* c */ 1 where /* d */ v > 0; // end\nf( /* no args */ ); // last"},
+		{name: "raw-elided-tail", valid: false, text: "raw a b // no terminator"},
 		{name: "raw-empty", valid: true, text: "raw ;"},
 		{name: "raw-paren", valid: false, text: "raw a ) b;"},
 		{name: "let-empty", valid: false, text: "let x = ;"},
